@@ -540,6 +540,104 @@ def reentrancy(rec, ts, ncalls):
                 compare(rec, inner_t, inner_call, state['inner'], 'reentrant-inner', k=k, outer=repr(call)[:120])
 
 
+# -- (c2) results of nested parses embedded in the outer result -----------------------------------
+
+ISLAND_OUTER = '''
+start = Doc
+class Doc {
+    head: Word
+    parts: Part*
+    tail: Word?
+}
+class Part {
+    open: "{"
+    body: /[^}]*/ |> `sub`
+    close: "}"
+}
+Word = /[a-z]+/
+ignore /[ \\n]+/
+'''
+ISLAND_INNER = '''
+start = Item*
+class Item {
+    key: /[a-z]+/
+    eq: "="
+    val: Val
+}
+class Val {
+    digits: /[0-9]+/
+}
+ignore /[ \\n]+/
+'''
+
+
+def embedding(rec):
+    """An inline-Python callback parses a piece of the input with another module (or re-enters the
+    same module) and returns the resulting tree, which becomes part of the outer result.  Oracle: the
+    outer parse with an opaque callback, each hole then filled with the result of the same nested call
+    made on its own -- values and spans (the nested spans refer to the nested text)."""
+    r1 = observe.compile_grammar(ISLAND_OUTER)
+    r2 = observe.compile_grammar(ISLAND_INNER)
+    if r1[0] != 'ok' or r2[0] != 'ok':
+        rec.violation('embedding:grammar-error', 'Grammar() of the island grammars', dict(kind='c18', mode='embedding'), 'modules', (r1[:2], r2[:2]))
+        return
+    outer, inner = r1[1], r2[1]
+    rng = rec.rng
+    nested = {
+        'other-module': lambda s: inner.parse(s),
+        'other-module-rule': lambda s: inner.Item.parse(s, fullparse=False),
+        'same-module': lambda s: outer.Doc.parse('w ' + s.replace('=', ' ')) if '{' not in s else None,
+        'same-module-list': lambda s: [outer.Word.parse(s.strip() or 'z', fullparse=False), outer.Doc.parse('q')],
+    }
+    bodies = ['a=1', 'a=1 b=22', '', 'k=3\nm=4', 'x = 5 ', 'a=1 b=2 c=3']
+    for mode, fn in sorted(nested.items()):
+        for _ in range(12):
+            text = rng.choice(['h', 'doc ', 'h\n']) + ''.join('{%s}%s' % (rng.choice(bodies), rng.choice(['', ' ', '\n']))
+                                                              for _ in range(rng.randint(1, 3))) + rng.choice(['', 't'])
+            holes = []
+
+            def opaque(s, holes=holes):
+                holes.append(s)
+                return ('HOLE', len(holes) - 1)
+
+            outer.sub = opaque
+            skeleton = observe.observe(outer, text, guard=False).outcome
+            fills = []
+            ok = True
+            for s in holes:
+                try:
+                    fills.append(observe.norm_real(fn(s)))
+                except Exception as e:
+                    ok = False
+                    break
+            if not ok or skeleton[0] != 'value':
+                rec.drop()
+                continue
+
+            def fill(v):
+                if isinstance(v, tuple) and len(v) == 2 and v[0] == 'HOLE':
+                    return fills[v[1]]
+                if isinstance(v, tuple) and v and v[0] == 'obj':
+                    return ('obj', v[1], tuple((f, fill(x)) for f, x in v[2]), v[3])
+                if isinstance(v, list):
+                    return [fill(x) for x in v]
+                if isinstance(v, tuple):
+                    return tuple(fill(x) for x in v)
+                return v
+
+            want = ('value', fill(skeleton[1]))
+            outer.sub = fn
+            got = observe.observe(outer, text, guard=False).outcome
+            rec.case()
+            rec.count('embedded_nested_results')
+            rec.nontrivial(('embedding', mode, text))
+            if not observe.same_outcome(want, got):
+                rec.violation('embedding:%s->%s' % (observe.outcome_class(want), observe.outcome_class(got)),
+                              'outer result with nested results embedded vs. skeleton + stand-alone nested calls',
+                              dict(kind='c18', mode='embedding', nested=mode, text_repr=repr(text), desc=ISLAND_OUTER + '||' + ISLAND_INNER),
+                              observe.short(want, 300), observe.short(got, 300))
+
+
 # -- (b) schedule stress ------------------------------------------------------------------------
 
 TOOL_YIELD = 1
@@ -742,6 +840,7 @@ def run_shard(rec):
     churn(rec, ts)
     leaks(rec, ts)
     reentrancy(rec, ts, 6 if quick else 40)
+    embedding(rec)
     digests = set()
     rounds = 3 if quick else 20
     for r in range(rounds):
